@@ -533,9 +533,11 @@ fn check_app(c: &C03App) -> Outcome {
                 None => (sc.spec.state.dist_unit as usize, sc.spec.state.time_unit as usize),
             };
             let mut f = serde_json::Map::new();
-            f.insert(DIST.into(), json!({"distance_unit": DIST_UNIT_NAMES[(du0 + 1) % 5], "initial": 1234.5}));
+            // (half of these keep the units and differ in the initial values only)
+            let shift = if same_names && (sc.o + sc.spec.net.m()) % 4 == 0 { 0 } else { 1 };
+            f.insert(DIST.into(), json!({"distance_unit": DIST_UNIT_NAMES[(du0 + shift) % 5], "initial": 1234.5}));
             if has_time {
-                f.insert(TIME.into(), json!({"time_unit": TIME_UNIT_NAMES[(tu0 + 1) % 4], "initial": 77.25}));
+                f.insert(TIME.into(), json!({"time_unit": TIME_UNIT_NAMES[(tu0 + shift) % 4], "initial": 77.25}));
             }
             d.insert("state_features".into(), serde_json::Value::Object(f));
         }
